@@ -243,67 +243,77 @@ def main(pid="C02"):
     rnd = random.Random(rep.seed * 2654435761 % (2 ** 31) + 2)
     tree = StaticTree()
     try:
-        subst = {}
-        if thorough:
-            subst = {"MaxSegs": "3", "SegAlphabet": '{"", "..", "a", "f", "L1", "index.gmi", "s%20p", "%2e%2e", "a%2ff"}'}
-        path = tlc.cfg_variant("MC_StaticServe.cfg", subst)
-        try:
-            r, states = tlc.dump_states("StaticServe", path, timeout=2400)
-        finally:
-            import shutil
-            shutil.rmtree(os.path.dirname(path), ignore_errors=True)
-        rep.tlc("StaticServe(design)", r)
-        if not r.ok:
-            raise tlc.TLCError("design variant of StaticServe violates %s" % r.violated)
-        dev = tlc.expect_caught("StaticServe", "MC_StaticServe.cfg",
-                                {"DevIndexNotRechecked": ["Safe"], "DevNoPctDecode": ["Reachable"]}, timeout=600)
-        rep.set("deviation_selftests", [{"deviation": d, "caught_by": c} for d, c, _ in dev])
-        for d, c, v in dev:
-            if c is None:
-                raise tlc.TLCError("self-test: %s not caught (%s)" % (d, v))
-        cases = [s for s in states if s["out"]["what"] != "pending"]
-        # group by tree so that each tree is materialised once
-        by_tree = {}
-        for s in cases:
-            key = (repr(sorted(plain(s["slot"]).items())), s["listing"])
-            by_tree.setdefault(key, []).append(s)
         n = 0
         suspects = []
         leaks = 0
         distinct = set()
+        ntrees = 0
         # the handlers live as long as a server would: the tree changes under them between requests
         tree.set_slots({"L1": {"k": "absent", "to": "-"}, "idx": {"k": "absent", "to": "-"}})
         long_lived = {True: StaticFileHandler(tree.root, enable_directory_listing=True),
                       False: StaticFileHandler(tree.root, enable_directory_listing=False)}
-        keys = list(by_tree)
-        rnd.shuffle(keys)
-        for key in keys:
-            group = by_tree[key]
-            slot = plain(group[0]["slot"])
-            tree.set_slots(slot)
-            handler = long_lived[group[0]["listing"]]
-            for s in group:
-                toks = list(s["path"])
-                p = spell(toks, s["trailing"])
-                obs = observe(handler, p)
-                n += 1
-                m = plain(s["out"])
-                distinct.add((key, tuple(toks), s["trailing"]))
-                if obs["leak"]:
-                    leaks += 1
-                    rep.violation({"formula": "NoLeak", "st": obs["st"]},
-                                  "response %s for %r reveals content of %s (tree %s)" % (obs["st"], p, obs["leak"], slot),
-                                  {"slot": slot, "path": p, "obs": obs})
-                if not agrees(obs, m):
-                    suspects.append({"L1": slot["L1"], "idx": slot["idx"], "listing": s["listing"], "path": toks,
-                                     "trailing": s["trailing"], "st": obs["st"], "node": obs["node"], "what": obs["what"],
-                                     "_model": m, "_spelled": p})
-                elif n % 20011 == 0:
-                    rep.sample({"tree_slots": slot, "listing": s["listing"], "request_path": p, "answer": obs})
+        subst = {}
+        if thorough:
+            subst = {"MaxSegs": "3", "SegAlphabet": '{"", "..", "a", "f", "L1", "index.gmi", "s%20p", "%2e%2e", "a%2ff"}'}
+        # two instances: the broad one, and trees in which some link runs in a circle with paths of up to four segments
+        # (what Path.resolve() returns at a loop is only partly resolved: LexWalk in the specification)
+        for cfgname, sub, devs, cap in (("MC_StaticServe.cfg", subst, {"DevIndexNotRechecked": ["Safe"], "DevNoPctDecode": ["Reachable"]}, None),
+                                        ("MC_StaticServeLoop.cfg", {}, {"DevLoopLexical": ["Safe"]}, None if thorough else 30000)):
+            path = tlc.cfg_variant(cfgname, sub)
+            try:
+                r, states = tlc.dump_states("StaticServe", path, timeout=2400)
+            finally:
+                import shutil
+                shutil.rmtree(os.path.dirname(path), ignore_errors=True)
+            rep.tlc("StaticServe(design, %s)" % cfgname, r)
+            if not r.ok:
+                raise tlc.TLCError("design variant of StaticServe (%s) violates %s" % (cfgname, r.violated))
+            dev = tlc.expect_caught("StaticServe", cfgname, devs, timeout=900)
+            rep.set("deviation_selftests_" + cfgname, [{"deviation": d, "caught_by": c} for d, c, _ in dev])
+            for d, c, v in dev:
+                if c is None:
+                    raise tlc.TLCError("self-test: %s not caught (%s)" % (d, v))
+            cases = [s for s in states if s["out"]["what"] != "pending"]
+            if cfgname == "MC_StaticServeLoop.cfg":
+                cases = [s for s in cases if any(v["k"] == "link" for v in plain(s["slot"]).values())]
+            if cap is not None and len(cases) > cap:
+                rnd.shuffle(cases)
+                cases = cases[:cap]
+            # group by tree so that each tree is materialised once
+            by_tree = {}
+            for s in cases:
+                key = (repr(sorted(plain(s["slot"]).items())), s["listing"])
+                by_tree.setdefault(key, []).append(s)
+            ntrees += len(by_tree)
+            keys = list(by_tree)
+            rnd.shuffle(keys)
+            for key in keys:
+                group = by_tree[key]
+                slot = plain(group[0]["slot"])
+                tree.set_slots(slot)
+                handler = long_lived[group[0]["listing"]]
+                for s in group:
+                    toks = list(s["path"])
+                    p = spell(toks, s["trailing"])
+                    obs = observe(handler, p)
+                    n += 1
+                    m = plain(s["out"])
+                    distinct.add((key, tuple(toks), s["trailing"]))
+                    if obs["leak"]:
+                        leaks += 1
+                        rep.violation({"formula": "NoLeak", "st": obs["st"]},
+                                      "response %s for %r reveals content of %s (tree %s)" % (obs["st"], p, obs["leak"], slot),
+                                      {"slot": slot, "path": p, "obs": obs})
+                    if not agrees(obs, m):
+                        suspects.append({"L1": slot["L1"], "idx": slot["idx"], "listing": s["listing"], "path": toks,
+                                         "trailing": s["trailing"], "st": obs["st"], "node": obs["node"], "what": obs["what"],
+                                         "_model": m, "_spelled": p})
+                    elif n % 20011 == 0:
+                        rep.sample({"tree_slots": slot, "listing": s["listing"], "request_path": p, "answer": obs})
         rep.add("evaluations", n)
         rep.set("distinct_nontrivial", len(distinct))
         rep.add("traces_validated_against_impl", n)
-        rep.set("trees", len(by_tree))
+        rep.set("trees", ntrees)
         # ---- B2: byte-level spellings beyond the token alphabet, random trees --------------------------------------
         extra = 0
         kinds = [{"k": "absent", "to": "-"}, {"k": "file", "to": "-"}] + [{"k": "link", "to": t} for t in
